@@ -261,6 +261,16 @@ A(M("ident-strand-text-silent", "C07", C, None, None, kind="silent", edits=[("fr
 A(M("ident-auth-name", ["C08", "C05"], C, "class ResidueAuth:\n    chain: str\n    number: int\n    icode: Optional[str]\n    name: str\n", "class ResidueAuth:\n    chain: str\n    number: int\n    icode: Optional[str]\n    name: str = field(compare=False)\n", "identity-equality", edits=[("from dataclasses import dataclass\n", "from dataclasses import dataclass, field\n"), ("class ResidueAuth:\n    chain: str\n    number: int\n    icode: Optional[str]\n    name: str\n", "class ResidueAuth:\n    chain: str\n    number: int\n    icode: Optional[str]\n    name: str = field(compare=False)\n")]))
 A(M("ident-residue3d-payload-silent", ["C03", "C04", "C08"], "tertiary.py", "    def __hash__(self):\n        return hash((self.model, self.label, self.auth))\n", "    def __eq__(self, other):\n        if not isinstance(other, Residue3D):\n            return NotImplemented\n        return (self.model, self.label, self.auth) == (other.model, other.label, other.auth)\n\n    def __hash__(self):\n        return hash((self.model, self.label, self.auth))\n", kind="silent"))
 A(M("ident-residue3d-no-label", ["C03", "C17"], "tertiary.py", "    def __hash__(self):\n        return hash((self.model, self.label, self.auth))\n", "    def __eq__(self, other):\n        if not isinstance(other, Residue3D):\n            return NotImplemented\n        return (self.model, self.auth) == (other.model, other.auth)\n\n    def __hash__(self):\n        return hash((self.model, self.auth))\n", "identity-equality"))
+# round 5: the decomposition evaluated on every small structure (checks/c07v.py), on the clean tree and on the helper-extraction refactor C07-r6
+B76 = dict(base="C07-r6")
+A(M("c07v-loop-sorted-post-init", "C07", C, "    strands: List[Strand]\n\n    def __post_init__(self):\n        self.description = str(self)\n", "    strands: List[Strand]\n\n    def __post_init__(self):\n        self.strands = sorted(self.strands, key=lambda strand: strand.first)\n        self.description = str(self)\n", "elements-eval-loops"))
+A(M("c07v-r6-proper-loop-span", "C07", C, "return any(strand.last - strand.first > 1 for strand in loop)", "return any(strand.last - strand.first > 2 for strand in loop)", ["elements-eval-coverage", "elements-eval-loops", "elements-closure-fact"], **B76))
+A(M("c07v-r6-successor-first", "C07", C, "partner = self.entries[strand.last - 1].pair", "partner = self.entries[strand.first - 1].pair", ["elements-eval-coverage", "elements-eval-loops", "elements-links-fact"], **B76))
+A(M("c07v-r6-early-return-3", "C07", C, "if len(loop_candidates) < 2:", "if len(loop_candidates) < 3:", ["elements-eval-coverage", "elements-eval-loops"], **B76))
+A(M("c07v-r6-walk-returns-start", "C07", C, "            else:\n                return loop\n", "            else:\n                return loop[:1]\n", ["elements-eval-coverage", "elements-eval-loops"], **B76))
+A(M("c07v-r6-leftover-dropped", "C07", C, "            if loop_candidate not in used\n        )\n\n        return stems, single_strands, hairpins, loops", "            if loop_candidate not in used and loop_candidate.last - loop_candidate.first > 1\n        )\n\n        return stems, single_strands, hairpins, loops", ["elements-eval-coverage", "elements-tails-fact"], **B76))
+A(M("c07v-r6-size-cap", "C07", C, "if len(loop_candidates) < 2:", "if len(loop_candidates) < 2 or len(self.entries) > 400:", ["elements-links-fact", "elements-eval-coverage"], kind="fire", **B76))
+A(M("c07v-single-linker", "C07", C, "            if loop_candidate not in used:\n                single_strands.append(SingleStrand(loop_candidate, False, False))", "            if loop_candidate not in used and loop_candidate.last - loop_candidate.first >= 3:\n                single_strands.append(SingleStrand(loop_candidate, False, False))", ["elements-eval-coverage", "elements-tails-fact"]))
 # C05 contact-visit-order (F23)
 A(M("c05-visit-order-unsorted", "C05", "annotator.py", "for i, j in sorted(kdtree.query_pairs(HYDROGEN_BOND_MAX_DISTANCE)):", "for i, j in kdtree.query_pairs(HYDROGEN_BOND_MAX_DISTANCE):", "contact-visit-order"))
 A(M("c05-visit-order-list", "C05", "annotator.py", "for i, j in sorted(kdtree.query_pairs(HYDROGEN_BOND_MAX_DISTANCE)):", "for i, j in list(kdtree.query_pairs(HYDROGEN_BOND_MAX_DISTANCE)):", "contact-visit-order"))
@@ -358,7 +368,7 @@ A(M("c08-clash-cross-model", "C08", PA, "        if unique_atoms_list[i].model !
 A(M("c08-model-default", "C08", PA, "atoms = atoms_by_model[list(available_models.keys())[0]]", "atoms = atoms_by_model[list(available_models.keys())[-1]]", "model-selection"))
 A(M("c08-group-key", "C08", PA, "        key = (atom.label, atom.auth, atom.model)", "        key = (atom.label, atom.auth)", ["identity-key-model", "group-runs"]))  # evaluated: the 2-tuple never equals the 3-tuple key_previous and key_previous[2] raises
 A(M("c08-none-guard", "C08", PA, "            atom.occupancy is not None\n            and (\n                unique_atoms[key].occupancy is None\n                or atom.occupancy > unique_atoms[key].occupancy\n            )", "            atom.occupancy > unique_atoms[key].occupancy", "optional-occupancy"))
-A(M("c08-isdigit", "C08", PA, "    try:\n        return int(s)\n    except ValueError:\n        return None", "    if s is None or not s.isdigit():\n        return None\n    return int(s)", "int-parsing"))
+A(M("c08-isdigit", "C08", PA, "    try:\n        return int(s)\n    except (ValueError, TypeError):\n        # TypeError: the item is absent from the file (None), e.g. no auth_seq_id\n        return None", "    if s is None or not s.isdigit():\n        return None\n    return int(s)", "int-parsing"))
 A(M("c08-flush", "C08", PA, "    residues.append(\n        Residue3D(label, auth, model, one_letter_name, tuple(residue_atoms))\n    )\n\n    if nucleic_acid_only:", "    if nucleic_acid_only:", "group-runs"))
 A(M("c08-model-col", "C08", PA, "model = int(line[10:14].strip())", "model = int(line[6:10].strip())", "pdb-columns"))
 # round 3 (worker W3): evaluated / fact rules of C08, C09, C10, C15 on refactored bases
